@@ -78,7 +78,7 @@ def run(ctx):
         seen[k] = seen.get(k, 0) + 1
         detail = "leaf returns %d under r < T[%s] and not r < T[%s]" % (k, sorted(A), sorted(B))
         if not ok:
-            detail += " — for r in [T[%s], T[%s]) the deepest depth whose limit exceeds r is %s, not %d" % (min(B) if B else "-", max(A) if A else "-", (min(B) - 1) if B else 29, k)
+            detail += " — the leaf covers r in [T[%s], T[%s]); there the deepest depth whose limit exceeds r is %s (and the region must be a single table interval), but the leaf returns %d" % (min(B) if B else "-", max(A) if A else "-", (min(B) - 1) if B else 29, k)
         ctx.report("decision-tree", "%s:leaf%d" % (FN, k), ok, detail, at="%s (%s)" % (FN, loc[2]),
                    sample={"returns": k, "succeeded": sorted(A), "failed": sorted(B)} if k in (0, 15, 28, 29) else None)
     missing = [k for k in range(30) if seen.get(k, 0) != 1]
